@@ -156,6 +156,22 @@ pub fn sections() -> Vec<Box<dyn Section>> {
             required: vec!["rebuilt", "pypi-or-nuget-value", "value-with-checksum"],
         }),
         Box::new(Enumerated {
+            name: "every-scalar-value-next-to-a-separator".into(),
+            total: Box::new(|_| 0x110000 * 3),
+            make: Box::new(|_, i| {
+                let c = char::from_u32((i / 3) as u32)?;
+                let (ty, name) = match i % 3 {
+                    0 => ("pypi", format!("{c}_a")),
+                    1 => ("pypi", format!("A.{c}")),
+                    _ => ("nuget", format!("A{c}b")),
+                };
+                Some(NameCase { ty: ty.into(), name })
+            }),
+            oracle: o_name,
+            required: vec!["rebuilt", "pypi-or-nuget-value"],
+            complete: true,
+        }),
+        Box::new(Enumerated {
             name: "pypi-nuget-names-exhaustive".into(),
             total: Box::new(|t: Tier| 2 * names_total(NAME_ALPHABET, t.pick(5, 7))),
             make: Box::new(|t: Tier, i| {
